@@ -501,10 +501,14 @@ func replayNative(repoDir, path string, rf *ReplayFile) (bool, string) {
 	cmd.Env = append(os.Environ(), "GOFLAGS=-mod=mod", "GOPROXY=off", "GOSUMDB=off", "GOTOOLCHAIN=local", "VERIF_REPLAY="+path, "GOCACHE="+env("GOCACHE", filepath.Join(os.TempDir(), "gosym-gocache")))
 	out, err := cmd.CombinedOutput()
 	s := string(out)
-	if strings.Contains(s, "VERIF-REPLAY-FAIL") || strings.Contains(s, "panic:") {
+	want := "VERIF-REPLAY-FAIL assertion " + rf.AssertID
+	if rf.Kind == "implicit" {
+		want = "panic:"
+	}
+	if strings.Contains(s, want) && !strings.Contains(s, "VERIF-REPLAY-ASSUME-FAILED") {
 		line := ""
 		for _, l := range strings.Split(s, "\n") {
-			if strings.Contains(l, "VERIF-REPLAY-FAIL") || strings.Contains(l, "panic:") {
+			if strings.Contains(l, want) {
 				line = strings.TrimSpace(l)
 				break
 			}
